@@ -107,7 +107,8 @@ theorem mci_order (w : Nat) (X Y : SI) (hX : WFw w X) (hY : WFw w Y) (hXb : X.bo
     (HY : Y.ub < Y.lb → TwoPieces Y ∨ (TwoPieces X ∧ X.ub < Y.lb))
     (hnc : NoCross X Y) (o : Option Int) (h : minimalCommonInteger X Y = .ok o) (x : Nat) (hx : X.mem x) (hy : Y.mem x) :
     ∃ n : Nat, o = some (n : Int) ∧ X.mem n ∧ Y.mem n ∧
-      (cd (2 ^ w) X.lb n ≤ cd (2 ^ w) X.lb x ∨ cd (2 ^ w) Y.lb n ≤ cd (2 ^ w) Y.lb x) := by
+      ((X.ub < X.lb ∨ ¬ Y.ub < Y.lb) → cd (2 ^ w) X.lb n ≤ cd (2 ^ w) X.lb x) ∧
+      ((Y.ub < Y.lb ∨ ¬ X.ub < X.lb) → cd (2 ^ w) Y.lb n ≤ cd (2 ^ w) Y.lb x) := by
   obtain ⟨sp1, sp2⟩ := minimalCommonInteger_spec w X Y hX hY hXb hYb HX HY o h
   obtain ⟨_, hxl, hx1, _⟩ := mem_facts X x hX.1 hx
   obtain ⟨_, _, hy1, _⟩ := mem_facts Y x hY.1 hy
@@ -135,9 +136,6 @@ theorem mci_order (w : Nat) (X Y : SI) (hX : WFw w X) (hY : WFw w Y) (hXb : X.bo
     have ho := hord x hx hy
     unfold Up Lo at hUL ho
     obtain ⟨f1, f2⟩ := num_flags (2 ^ w) X.lb X.ub Y.lb Y.ub x n hXl hXu hYl hYu hxl hnl hx1 hy1 hn1 hn2 hnc hUL ho
-    refine ⟨n, by rw [e], mx, my, ?_⟩
-    by_cases hc : X.ub < X.lb ∨ ¬ Y.ub < Y.lb
-    · exact Or.inl (f1 hc)
-    · exact Or.inr (f2 (by omega))
+    exact ⟨n, by rw [e], mx, my, f1, f2⟩
 
 end Claripy.VSA
